@@ -30,6 +30,8 @@ func stepAlphabet(depth int) []seqx.Step {
 		{Op: "Level", Level: zerolog.InfoLevel},
 		{Op: "Level", Level: zerolog.TraceLevel},
 		{Op: "Output"},
+		{Op: "OutputDiscard"},
+		{Op: "OutputNil"},
 		{Op: "Sample"},
 		{Op: "SampleNil"},
 		{Op: "UpdateContext", Fields: []seqx.Field{{M: "Str", Key: k("u"), Val: "w"}}},
